@@ -136,6 +136,37 @@ def assemble(unit_name, unit, tolerant=False):
                 with open(log_path, "a") as fh:
                     fh.write("RULE\t%s\tR-AUTOCONST %s\n" % (src, name))
                 defined.add(name)
+    # R-AUTOCONST for associated constants: `Type :: NAME` named by an extracted function where Type is an extracted item and NAME is a constant of an
+    # inherent impl in the item's source file that nothing defines yet (printed by vx as an exec const, R-ASSOCCONST)
+    body_text = "".join(parts)
+    changed = True
+    while changed:
+        changed = False
+        for piece in unit["pieces"]:
+            if piece["kind"] != "items":
+                continue
+            src = os.path.join(REPO, piece["src"])
+            try:
+                src_text = open(src).read()
+            except Exception:
+                continue
+            for ty in piece["items"]:
+                if "::" in ty:
+                    continue
+                for name in sorted(set(re.findall(r"\b%s :: ([A-Z][A-Z0-9_]*)\b" % re.escape(ty), body_text))):
+                    if not re.search(r"\bconst\s+%s\s*:" % re.escape(name), src_text):
+                        continue
+                    if re.search(r"\bconst\s+%s\b" % re.escape(name), body_text):
+                        continue
+                    try:
+                        txt = run_vx([src, "--items", "%s::%s" % (ty, name)], log_path)
+                    except Inconclusive:
+                        continue
+                    parts.append("//@file <extracted items %s (R-AUTOCONST)>\n" % piece["src"] + txt + "\n")
+                    body_text += txt
+                    changed = True
+                    with open(log_path, "a") as fh:
+                        fh.write("RULE\t%s\tR-AUTOCONST %s::%s\n" % (src, ty, name))
     parts.append("} // verus!\nfn main() {}\n")
     text = "".join(parts)
     with open(out_path, "w") as fh:
